@@ -2,7 +2,7 @@
     quantify over every store answer; [gstep] is [None] only when the drive loop's fuel runs out
     (termination of the loop is not proved). *)
 From V.Lib Require Import Base.
-From V.C18 Require Import Model Spec ProofsDead ProofsKernel ProofsLife ProofsDrive.
+From V.C18 Require Import Model Spec ProofsDead ProofsKernel ProofsLife ProofsDrive ProofsRebuild.
 From Coq Require Import ZifyBool.
 Local Open Scope Z_scope.
 
@@ -15,6 +15,7 @@ Inductive gevent :=
 | GRollback (h : Z)
 | GReportFailure (id tip : Z)
 | GRecordSat (tg : targets) (dets : list (Z * answer))
+| GRebuild (id target : Z) (grid_ok crypto_ok external : bool) (delay anchor txid : Z)
 | GCancel | GSupersede | GRecompute.
 
 Definition gstep (s : mstate) (e : gevent) : option mstate :=
@@ -28,6 +29,7 @@ Definition gstep (s : mstate) (e : gevent) : option mstate :=
   | GRollback h => Some (truncate_to_height s h)
   | GReportFailure id tip => Some (report_broadcast_failure s id tip)
   | GRecordSat tg dets => Some (record_satisfiability s tg dets)
+  | GRebuild id target g c e delay anchor txid => Some (fst (rebuild s id target g c e delay anchor txid))
   | GCancel => Some (mark_cancelled s)
   | GSupersede => Some (mark_superseded s)
   | GRecompute => Some (recompute_status s)
@@ -40,6 +42,7 @@ Fixpoint grun (s : mstate) (es : list gevent) : option mstate :=
   end.
 
 Definition is_rollback (e : gevent) : Prop := match e with GRollback _ => True | _ => False end.
+Definition is_rebuild (e : gevent) : Prop := match e with GRebuild _ _ _ _ _ _ _ _ => True | _ => False end.
 
 Lemma cancel_txs : forall s, m_txs (mark_cancelled s) = m_txs s.
 Proof. intros s. unfold mark_cancelled. destruct (is_terminal s); reflexivity. Qed.
@@ -50,6 +53,8 @@ Proof. intros s. unfold mark_superseded. destruct (is_terminal s); reflexivity. 
 Theorem step_lifecycle : forall s e s', gstep s e = Some s' ->
   match e with
   | GRollback h => rows (fun a b => b = unmine h a) (m_txs s) (m_txs s')
+  | GRebuild id target _ _ _ delay _ _ =>
+    0 <= delay -> target <= U32MAX -> Forall2 (rebuilt_rel id target) (m_txs s) (m_txs s')
   | _ => monotone (m_txs s) (m_txs s')
   end.
 Proof.
@@ -63,14 +68,15 @@ Proof.
   - apply rollback_exact.
   - apply same_monotone, report_failure_same.
   - apply same_monotone, record_sat_same.
+  - intros D T. apply rebuild_exact; assumption.
   - rewrite cancel_txs. apply monotone_refl.
   - rewrite supersede_txs. apply monotone_refl.
   - rewrite txs_recompute. apply monotone_refl.
 Qed.
 
-(** every rollback-free event sequence *)
+(** every event sequence free of the two exceptions (rollback, rebuild) *)
 Theorem lifecycle_monotone : forall es s s',
-  Forall (fun e => ~ is_rollback e) es -> grun s es = Some s' ->
+  Forall (fun e => ~ is_rollback e /\ ~ is_rebuild e) es -> grun s es = Some s' ->
   monotone (m_txs s) (m_txs s').
 Proof.
   induction es as [|e es IH]; intros s s' F H; simpl in H.
@@ -78,7 +84,7 @@ Proof.
   - destruct (gstep s e) as [s1|] eqn:G; [|discriminate].
     inversion F; subst. pose proof (step_lifecycle s e s1 G) as L.
     eapply monotone_trans; [|apply IH; eassumption].
-    destruct e; try exact L. exfalso. apply H2. exact I.
+    destruct H2 as [R1 R2]. destruct e; try exact L; exfalso; [apply R1 | apply R2]; exact I.
 Qed.
 
 (** every event sequence, rollbacks included: rows keep place and id, and the only way a row
@@ -99,15 +105,16 @@ Proof.
   split; [exact E|]. unfold fwd_or_unmined. rewrite R. apply unmine_rank.
 Qed.
 
-Theorem lifecycle_any_sequence : forall es s s', grun s es = Some s' ->
+Theorem lifecycle_any_sequence : forall es s s', Forall (fun e => ~ is_rebuild e) es -> grun s es = Some s' ->
   rows fwd_or_unmined (m_txs s) (m_txs s').
 Proof.
-  induction es as [|e es IH]; intros s s' H; simpl in H.
+  induction es as [|e es IH]; intros s s' NR H; simpl in H.
   - inversion H; subst. apply rows_refl. intros x. unfold fwd_or_unmined. lia.
   - destruct (gstep s e) as [s1|] eqn:G; [|discriminate].
-    pose proof (step_lifecycle s e s1 G) as L. specialize (IH s1 s' H).
+    inversion NR; subst.
+    pose proof (step_lifecycle s e s1 G) as L. specialize (IH s1 s' H3 H).
     assert (L' : rows fwd_or_unmined (m_txs s) (m_txs s1)).
-    { destruct e; try (apply monotone_fwdu; exact L). eapply unmine_fwdu; exact L. }
+    { destruct e; try (apply monotone_fwdu; exact L); [eapply unmine_fwdu; exact L | exfalso; apply H2; exact I]. }
     eapply rows_trans; [|exact L'|exact IH]. intros x y z. unfold fwd_or_unmined. lia.
 Qed.
 
@@ -126,6 +133,7 @@ Proof.
   - left. apply mark_broadcast_status. exact T.
   - left. apply mark_mined_status. exact T.
   - destruct (truncate_status s h) as [E|[E1 [E2 E3]]]; [left; exact E|]. right. split; [exists h; reflexivity|]. tauto.
+  - left. apply rebuild_status.
   - left. unfold mark_cancelled. rewrite T. reflexivity.
   - left. unfold mark_superseded. rewrite T. reflexivity.
   - left. rewrite recompute_terminal; [reflexivity|exact T].
@@ -158,20 +166,45 @@ Proof.
   - exfalso. apply H2. exact I.
 Qed.
 
-(** A fully mined migration stays fully mined over every rollback-free sequence, so a [Complete]
+(** Only a rollback un-mines: over every rollback-free event sequence (rebuilds included) a
+    mined row stays a mined row, so a fully mined migration stays fully mined and a [Complete]
     status never comes to sit on an unmined row. *)
-Lemma monotone_all_mined : forall a b, monotone a b -> all_mined a = true -> all_mined b = true.
+Definition mined_kept (a b : mtx) : Prop := t_id a = t_id b /\ (is_mined a = true -> is_mined b = true).
+
+Lemma mined_kept_trans : forall x y z, Forall2 mined_kept x y -> Forall2 mined_kept y z -> Forall2 mined_kept x z.
 Proof.
-  intros a b M. induction M as [|x y l l' [E R] _ IH]; simpl; [tauto|].
-  intros H. apply andb_true_iff in H. destruct H as [H1 H2]. rewrite (IH H2), andb_true_r.
-  unfold is_mined in *. unfold fwd in R. destruct (t_state x); try discriminate.
-  destruct (t_state y); simpl in R; try lia; reflexivity.
+  intros x y z H1. revert z. induction H1 as [|a b l l' [E M] _ IH]; intros z H2; inversion H2 as [|b' c l2 l3 [E2 M2] H4]; subst; constructor.
+  - split; [congruence | auto].
+  - apply IH. assumption.
+Qed.
+
+Lemma monotone_mined_kept : forall a b, monotone a b -> Forall2 mined_kept a b.
+Proof.
+  intros a b M. induction M as [|x y l l' [E R] _ IH]; constructor; [|exact IH]. split; [exact E|].
+  unfold is_mined, fwd in *. destruct (t_state x); try discriminate. destruct (t_state y); simpl in R; try lia; reflexivity.
+Qed.
+
+Theorem mined_stays_mined : forall es s s', Forall (fun e => ~ is_rollback e) es -> grun s es = Some s' ->
+  Forall2 mined_kept (m_txs s) (m_txs s').
+Proof.
+  induction es as [|e es IH]; intros s s' F H; simpl in H.
+  - inversion H; subst. induction (m_txs s'); constructor; [split; tauto | assumption].
+  - destruct (gstep s e) as [s1|] eqn:G; [|discriminate]. inversion F; subst.
+    eapply mined_kept_trans; [|apply IH; eassumption].
+    pose proof (step_lifecycle s e s1 G) as L.
+    destruct e; try (apply monotone_mined_kept; exact L); [exfalso; apply H2; exact I|].
+    simpl in G. inversion G; subst.
+    pose proof (rebuild_keeps_mined s id target grid_ok crypto_ok external delay anchor txid) as K.
+    clear -K. induction K as [|a b l l' [E M] _ IHK]; constructor; [|exact IHK]. split; [exact E|].
+    intros Ma. rewrite (M Ma). exact Ma.
 Qed.
 
 Theorem complete_stays_all_mined : forall es s s', all_mined (m_txs s) = true ->
   Forall (fun e => ~ is_rollback e) es -> grun s es = Some s' -> all_mined (m_txs s') = true.
 Proof.
-  intros es s s' A F H. eapply monotone_all_mined; [eapply lifecycle_monotone; eassumption | exact A].
+  intros es s s' A F H. pose proof (mined_stays_mined es s s' F H) as K. revert A. unfold all_mined.
+  induction K as [|a b l l' [E M] _ IH]; simpl; [tauto|]. intros X. apply andb_true_iff in X. destruct X as [X1 X2].
+  rewrite (M X1), (IH X2). reflexivity.
 Qed.
 
 (** ids stay unique (rows keep their ids) *)
